@@ -131,9 +131,12 @@ class DiffusionModel(GenericModel):
         data = {
             'finalTime': self.t,
             'finalX': self.x,
-            'recordX': self._recordedX,
-            'recordTime': self._recordedTime
         }
+        #Recorded arrays are None if recording is off. np.savez stores None as an object array, which np.load refuses to read
+        if self._recordedX is not None:
+            data['recordX'] = self._recordedX
+        if self._recordedTime is not None:
+            data['recordTime'] = self._recordedTime
         return data
 
     def fromDict(self, data):
@@ -142,8 +145,8 @@ class DiffusionModel(GenericModel):
         '''
         self.t = data['finalTime']
         self.x = data['finalX']
-        self._recordedX = data['recordX']
-        self._recordedTime = data['recordTime']
+        self._recordedX = data.get('recordX', None)
+        self._recordedTime = data.get('recordTime', None)
     
     def setHashSensitivity(self, s):
         '''
